@@ -406,3 +406,74 @@ def groups_trace(rng, nm=4, gnames=("a", "b"), nops=8):
                                  and all(f"k{m}" in g and g[f"k{m}"] is members[m - 1] for m in ms) and g.name == name)
         ev.append(e)
     return {"hdr": {"kind": "groups", "nm": nm}, "ev": ev}
+
+
+# ---- GraphBuilder.replace_var ------------------------------------------------------------------
+def replace_var_events(rng, n=40):
+    import tensorflow_probability.substrates.jax.distributions as tfd
+    evs = []
+    for _ in range(n):
+        nodes, inp, at, vars_, vobjs = [], [], [], [], []
+
+        def reg(node, ins, a=0):
+            nodes.append(node)
+            inp.append(ins)
+            at.append(a)
+            return len(nodes)
+
+        nv = rng.randint(2, 4)
+        for k in range(nv):
+            # value node: strong (Value) or weak (Calc over earlier proxies / calcs)
+            cand = [i for i in range(1, len(nodes) + 1) if not isinstance(nodes[i - 1], lsl.Dist)]
+            ins = rng.sample(cand, min(len(cand), rng.randint(0, 2))) if rng.random() < 0.5 else []
+            if ins:
+                vnode = lsl.Calc(lambda *a: 0.0, *[nodes[j - 1] for j in ins], update_on_init=False)
+            else:
+                vnode = lsl.Value(float(k))
+            dist = None
+            dins = []
+            if rng.random() < 0.6:
+                cand = [i for i in range(1, len(nodes) + 1) if not isinstance(nodes[i - 1], lsl.Dist)]
+                dins = rng.sample(cand, min(len(cand), rng.randint(0, 2)))
+                dist = lsl.Dist(tfd.Normal, *[nodes[j - 1] for j in dins]) if dins else lsl.Dist(tfd.Normal, loc=0.0, scale=1.0)
+            var = lsl.Var(vnode, dist, name=f"v{k}")
+            vi = reg(var.value_node, ins)
+            pi = reg(var.var_value_node, [vi])
+            di = 0
+            if dist is not None:
+                # constants given by keyword became Value nodes: kw inputs are not recorded (never replaced here)
+                di = reg(dist, dins, pi)
+            vars_.append([vi, pi, di])
+            vobjs.append(var)
+            # a free calc using this var
+            if rng.random() < 0.5:
+                reg(lsl.Calc(lambda *a: 0.0, var, update_on_init=False), [pi])
+        idx = {id(nd): i + 1 for i, nd in enumerate(nodes)}
+        free = [i for i in range(1, len(nodes) + 1) if not any(i in v for v in vars_)]
+        added = sorted(rng.sample(free, rng.randint(0, len(free)))) if free else []
+        gbvars = sorted(rng.sample(range(1, nv + 1), rng.randint(1, nv)))
+        gb = lsl.GraphBuilder().add(*[nodes[a - 1] for a in added], *[vobjs[g - 1] for g in gbvars])
+        old, new = rng.sample(range(1, nv + 1), 2)
+        # `new` must not depend on `old` (a variable cannot replace one of its own ancestors sensibly); keep any pair,
+        # the spec describes what the code does in either case
+        def reach(start):
+            seen, todo = set(), list(start)
+            while todo:
+                x = todo.pop()
+                if x in seen or x == 0:
+                    continue
+                seen.add(x)
+                todo += inp[x - 1] + [at[x - 1]]
+            return seen
+        depends = bool(reach(vars_[new - 1]) & set(vars_[old - 1]))
+        raised = False
+        try:
+            gb.replace_var(vobjs[old - 1], vobjs[new - 1])
+        except RuntimeError:
+            raised = True
+        evs.append({"ev": "replace_var", "inp": inp, "at": at, "vars": vars_, "added": added, "gbvars": gbvars,
+                    "old": old, "new": new, "raised": raised, "new_depends_on_old": depends,
+                    "inp_after": [[idx[id(x)] for x in nd.inputs] for nd in nodes],
+                    "added_after": sorted(idx[id(x)] for x in gb.nodes),
+                    "gbvars_after": sorted(i + 1 for i, v in enumerate(vobjs) if any(v is g for g in gb.vars))})
+    return evs
